@@ -24,7 +24,7 @@ M = [
  ("c15_no_reserved_check", "C15", "db/database.go", "\tif int(hs.ReservedSpace) != 0 {\n\t\treturn h, ErrReservedSpace\n\t}\n", ""),
  ("c15_header_cached_when_counter_same", "C15", "db/database.go", "\tnewHeader, err := parseHeader(buf)\n\tif err != nil {\n\t\treturn err\n\t}", "\tnewHeader, err := parseHeader(buf)\n\tif err != nil {\n\t\tif db.header != nil {\n\t\t\tdb.dirty = false\n\t\t\treturn nil\n\t\t}\n\t\treturn err\n\t}"),
  ("c17_ignore_done_index_interior", "C17", "db/btree.go", "\t\tif done, err := page.Iter(r-1, db, cb); done || err != nil {\n\t\t\treturn done, err\n\t\t}\n\n\t\t// the btree node also has a record", "\t\tif _, err := page.Iter(r-1, db, cb); err != nil {\n\t\t\treturn false, err\n\t\t}\n\n\t\t// the btree node also has a record"),
- ("c19_close_no_wait", "C19", "driver/driver.go", "\tr.cancel()\n\tr.wg.Wait()\n\treturn r.err", "\tr.cancel()\n\treturn nil"),
+ ("c19_close_no_wait", "C19", "driver/driver.go", "\tr.cancel()\n\tr.wg.Wait()\n\tatomic.StoreInt32(r.busy, 0)\n\treturn r.err", "\tr.cancel()\n\tatomic.StoreInt32(r.busy, 0)\n\treturn nil"),
  ("c19_star_sorted", "C19", "driver/driver.go", "\t\t\tcols = append(cols, allCols...)\n", "\t\t\tsorted := append([]string{}, allCols...)\n\t\t\tsort.Strings(sorted)\n\t\t\tcols = append(cols, sorted...)\n"),
  ("c11_nocase_unicode", "C11", "db/cmp.go", "\t\t\tif c >= 'A' && c <= 'Z' {\n\t\t\t\treturn int(c) + 'a' - 'A'\n\t\t\t}", "\t\t\tif c >= 'A' && c <= 'Z' || c >= 0xc0 && c <= 0xde {\n\t\t\t\treturn int(c) + 'a' - 'A'\n\t\t\t}"),
  ("c03_equals_ignores_collate", "C03", "db/cmp.go", "\t\tif compare(k.V, r[i], CollateFuncs[coll]) != 0 {\n\t\t\treturn false", "\t\tif compare(k.V, r[i], CollateFuncs[DefaultCollate]) != 0 {\n\t\t\t_ = coll\n\t\t\treturn false"),
